@@ -8,7 +8,8 @@ META = dict(
               "stream invariants checked after every service step",
     text="A real TcpServerStack and a real TcpClientStack are connected over socket doubles; 0-3 packets of 1-3 distinct "
          "bytes are queued in each direction (quick: 15 shape pairs, thorough: 120), plus shared-packet cases (quick 7, thorough "
-         "30): one Packet instance transmitted twice in a row, and one Packet instance transmitted to two connected clients "
+         "30) and close cases (quick 3, thorough 39: the client closes right after its last packet was accepted; all "
+         "received bytes must be delivered as packets before the connection is reaped): one Packet instance transmitted twice in a row, and one Packet instance transmitted to two connected clients "
          "which both also send their own packets to the server (each must come out attributed to its own connection); "
          "the transmitted Packet objects must keep their .packed. The driver then services the two stacks "
          "step by step with the same calls serviceAll() makes, except that it drains .rxPkts itself; which stack is serviced "
@@ -66,7 +67,10 @@ def shared_cases(tier):
         import itertools
         sshapes = [((), b) for n in (1, 2) for b in itertools.product((1, 2, 3), repeat=n)] + [((2,), (2, 1)), ((1, 2), (3,)),
                                                                                                   ((1, 2), ()), ((3, 1, 2), ())]
-    return [(a, b, m) for m in ("resend", "broadcast") for a, b in sshapes if b or m == "broadcast"]
+    closers = [((2,), ()), ((1, 2), ()), ((3, 1, 2), ())] if tier == "quick" else \
+        [(a, ()) for n in (1, 2, 3) for a in itertools.product((1, 2, 3), repeat=n)]
+    return [(a, b, m) for m in ("resend", "broadcast") for a, b in sshapes if b or m == "broadcast"] + \
+        [(a, b, "sendclose") for a, b in closers]
 
 
 def fresh_pairs(tier):
@@ -111,6 +115,9 @@ def execute(ch, cshape, sshape, part, states, mode="fresh"):
     """One schedule.  Returns None or (kind, what, log, fn).
     mode "fresh": one client, a fresh Packet per transmit.
     mode "resend": one client; the first packet of each direction is ONE Packet instance transmitted twice in a row.
+    mode "sendclose": one client; as soon as its packets are accepted by its socket the client stack closes, so the
+    server sees the last data and the EOF in one receive pass (or in separate passes under short / delayed reads);
+    every byte the server socket returned must come out as a packet before the connection is reaped.
     mode "broadcast": two clients connected at the same time; every server packet is ONE Packet instance
     transmitted to both peers; BOTH clients transmit the client->server shape (first: letters, second: digits,
     sizes reversed), and the server must attribute every packet to the connection it arrived on."""
@@ -176,8 +183,12 @@ def execute(ch, cshape, sshape, part, states, mode="fresh"):
         names = ["client"] if nclients == 1 else ["0client", "1client"]
         names.append("server")
         turn = 0
+        client_closed = False
         for step in range(horizon):
-            side = (turn + ch.choose(nsides, "who", 0, 1)) % nsides
+            if client_closed:
+                side = nclients              # only the server is left to service
+            else:
+                side = (turn + ch.choose(nsides, "who", 0, 1)) % nsides
             turn = (side + 1) % nsides
             step_name = "service(%s)" % names[side]
             log.append(names[side])
@@ -189,6 +200,10 @@ def execute(ch, cshape, sshape, part, states, mode="fresh"):
                     cs.serviceTxPkts()
                 while cs.rxPkts:
                     crx[side].append(bytes(cs.rxPkts.popleft().packed))
+                if mode == "sendclose" and bytes(csocks[0].sent) == ctotals[0] and not cs.txbs and not cs.txPkts:
+                    cs.close()               # the client has sent its last packet and goes away
+                    client_closed = True
+                    log.append("close")
             else:
                 ss.serviceConnects()
                 ss.handler.serviceReceivesAllIx()
@@ -228,6 +243,16 @@ def execute(ch, cshape, sshape, part, states, mode="fresh"):
                         tuple(len(x) for x in ixs[i].txes), len(ixs[i].rxbs), len(clients[i].rxbs), len(crx[i]), len(srx[i]))
                        for i in range(nclients)) + (len(ss.txPkts), turn, cshape, sshape, mode)
             states.add(hash(st))
+            if mode == "sendclose":
+                delivered = b"".join(srx[0])
+                if cas[0] not in ss.handler.ixes:          # the server has reaped the connection
+                    if delivered != bytes(ssocks[0].recvd) or delivered != ctotals[0]:
+                        raise Bad("lost-at-close", "the connection was reaped after the server socket had returned %r "
+                                  "(client sent %r), but only %r came out as packets; %r left in the connection's buffer"
+                                  % (bytes(ssocks[0].recvd), ctotals[0], srx[0], bytes(ixs[0].rxbs)))
+                    part.outcome("sendclose: delivered and reaped in %d steps" % (step + 1))
+                    return None
+                continue
             done = all(bytes(csocks[i].sent) == ctotals[i] and bytes(ssocks[i].sent) == stotals[i]
                        and not csocks[i].inbox and not ssocks[i].inbox
                        and b"".join(srx[i]) == ctotals[i] and b"".join(crx[i]) == stotals[i] for i in range(nclients))
@@ -299,7 +324,7 @@ def work(pair, replay=None):
                                                                   "" if mode == "fresh" else " mode=%s" % mode,
                                                                   "".join(x[0] for x in log) or "-", ",".join(answers) or "-"),
                         "%sTcpClientStack -> %s, TcpServerStack -> %s: %s" % (
-                            dict(fresh="", resend="first packet of each direction is one Packet instance transmitted twice; ",
+                            dict(fresh="", sendclose="the client closes as soon as its packets are accepted; ", resend="first packet of each direction is one Packet instance transmitted twice; ",
                                  broadcast="two clients (the second sends %s), each server packet is one Packet instance transmitted to "
                                            "both; " % payloads(tuple(reversed(cshape)), DIGITS))[mode],
                             payloads(cshape, ALPHA), payloads(sshape, BETA), what),
